@@ -58,6 +58,7 @@ package main
 
 //@ func (fw *CPTVFileRecorder) WriteFrame
 //@   mode permissive
+//@   callees [C10,C12] WriteFrame
 //@   requires [C12] fw != nil && fw.writer != nil
 //@   ensures [C11,C12] ncalls("WriteFrame") == 1 && callarg("WriteFrame", 1, 1) == frame && result == callres("WriteFrame", 1)
 
@@ -67,6 +68,7 @@ package main
 
 //@ func renameTempRecording
 //@   mode permissive
+//@   callees [C10] recordingFinalName, Rename
 //@   ensures [C10] ncalls("recordingFinalName") == 1 && callarg("recordingFinalName", 1, 0) == tempName
 //@   ensures [C10] ncalls("Rename") == 1 && callarg("Rename", 1, 0) == tempName && callarg("Rename", 1, 1) == callres("recordingFinalName", 1)
 //@   ensures [C10] callres("Rename", 1) != nil ==> result0 == "" && result1 == callres("Rename", 1)
@@ -78,6 +80,7 @@ package main
 
 //@ func (fw *CPTVFileRecorder) Stop
 //@   mode permissive
+//@   callees [C10] Close, Name, Remove
 //@   requires fw != nil
 //@   ensures [C10] old(fw.writer) != nil ==> ncalls("Close") == 1 && ncalls("Remove") == 1 && callseq("Close", 1) < callseq("Remove", 1) && callarg("Remove", 1, 0) == callres("Name", 1)
 //@   ensures [C10,C12] fw.writer == nil
@@ -85,6 +88,7 @@ package main
 
 //@ func (fw *CPTVFileRecorder) StopRecording
 //@   mode permissive
+//@   callees [C10,C17] SetAutoFFC, Close, Name, renameTempRecording
 //@   requires fw != nil
 //@   ensures [C10] old(fw.writer) != nil ==> ncalls("Close") == 1 && ncalls("renameTempRecording") == 1 && callseq("Close", 1) < callseq("renameTempRecording", 1)
 //@   ensures [C10] ncalls("renameTempRecording") == 1 && ncalls("Name") == 1 ==> callarg("renameTempRecording", 1, 0) == callres("Name", 1) && result == callres("renameTempRecording", 1).1
@@ -93,6 +97,7 @@ package main
 
 //@ func (fw *CPTVFileRecorder) StartRecording
 //@   mode permissive
+//@   callees [C10,C17] deleteExcessRecordings, SetAutoFFC, newRecordingTempName, NewFileWriter, WriteHeader, Close
 //@   requires fw != nil
 //@   ensures [C10] ncalls("NewFileWriter") <= 1 && (ncalls("NewFileWriter") == 1 ==> ncalls("newRecordingTempName") == 1 && ncalls("Join") == 1 && len(callarg("Join", 1, 0)) == 2 && callarg("Join", 1, 0)[0] == old(fw.outputDir) && callarg("Join", 1, 0)[1] == callres("newRecordingTempName", 1) && callarg("NewFileWriter", 1, 0) == callres("Join", 1) && callarg("NewFileWriter", 1, 1) == old(fw.camera))
 //@   ensures [C10,C12] ncalls("NewFileWriter") == 0 ==> result != nil && fw.writer == old(fw.writer)
@@ -131,6 +136,7 @@ package main
 // /verif/contracts/lemmas/temp_glob.smt2.
 //@ func deleteTempFiles
 //@   mode permissive
+//@   callees [C10] Glob, Remove
 //@   loop 1 invariant [C10] -1 <= rangeindex && rangeindex + 1 <= len(matches) && ncalls("Remove") == rangeindex + 1 && ncalls("Glob") == 1 && ncalls("Join") == 1
 //@   call Remove#1 assert [C10] $0 == matches[rangeindex]
 //@   ensures [C10] ncalls("Glob") == 1 && ncalls("Join") == 1 && len(callarg("Join", 1, 0)) == 2 && callarg("Join", 1, 0)[0] == directory && callarg("Join", 1, 0)[1] == "*.cptv.temp*" && callarg("Glob", 1, 0) == callres("Join", 1)
